@@ -3,6 +3,7 @@ known-findings classification -> evidence.  Verdicts are TLC's; this module only
 
 import json
 import multiprocessing as mp
+from .par import pmap
 import os
 import random
 import shutil
@@ -42,8 +43,7 @@ def explore_all(jobs, procs=16):
         return []
     if procs <= 1 or len(jobs) == 1:
         return [_explore_job(j) for j in jobs]
-    with mp.Pool(min(procs, len(jobs))) as pool:
-        return pool.map(_explore_job, jobs, chunksize=max(1, len(jobs) // (procs * 4)))
+    return pmap(_explore_job, jobs, procs)
 
 
 def node_schedule(res, node):
